@@ -133,6 +133,19 @@ pub fn run(cfg: &RunCfg) -> PartResult {
             }
         }
     }
+    // a disconnected graph (two components, two loops): derived fields must survive the round trip as stored
+    if let Some(e) = crate::props::c03::awkward().into_iter().find(|e| e.name == "bubble-x-vacuum-bubble") {
+        let sig = vec![vec![1, 0], vec![-1, 0], vec![0, 1], vec![0, -1]];
+        if e.graph().build_sampler::<3>(sig.clone()).is_ok() {
+            for seq in [false, true] {
+                let routing = Routing { name: "one loop momentum per component".into(), tree: 0, sig: sig.clone() };
+                covered.push(json!({"graph": e.name, "D": 3, "routing": routing.name}));
+                total.merge(check_harness(&C18 { entry: e.clone(), d: 3, routing, seq }, cfg));
+            }
+        } else {
+            total.notes.push("the disconnected test graph is not accepted by build_sampler on this tree; skipped".into());
+        }
+    }
     total.bounds = json!({
         "catalogue": covered,
         "format": "two value-tree formats, both self-describing and f64-exact: serde_json::Value (structs as maps) for the first routing, the harness's SV tree (structs as sequences) for the second",
